@@ -91,7 +91,7 @@ pub fn run(rep: &mut Report) {
     let gcno = std::fs::read("/repo/test/Platform.gcno").expect("fixture");
     let gcda = std::fs::read("/repo/test/Platform.gcda").expect("fixture");
     let profraw = std::fs::read("/repo/test/default.profraw").unwrap_or_else(|_| b"profraw".to_vec());
-    let n = rep.budget(40, 15);
+    let n = rep.budget(160, 6);
     let mut reqs: Vec<String> = vec![];
     let mut expect: Vec<(String, bool)> = vec![];
     for c in 0..n {
@@ -124,6 +124,11 @@ pub fn run(rep: &mut Report) {
             "..\\..\\bs_up2".into(),
             "a\\..\\..\\bs_sneaky".into(),
             "\\bs_abs".into(),
+            // ... with a directory part, alone and beside its forward-slash twin
+            "..\\..\\bs_dir\\x".into(),
+            "../../bs_dir/x".into(),
+            "a\\..\\..\\..\\bs_dir2\\y".into(),
+            format!("\\{}\\bs_abs2", bait.display().to_string().trim_start_matches('/').replace('/', "\\")),
             // the same file as `shared/x` of the directory input, spelled with a `.` segment
             "shared/./x".into(),
             "shared/x".into(),
@@ -172,7 +177,7 @@ pub fn run(rep: &mut Report) {
         std::fs::write(
             case_dir.join("in/paths.info"),
             format!(
-                "TN:\nSF:../../outside.c\nDA:1,1\nend_of_record\nSF:{}/abs_src.c\nDA:1,1\nend_of_record\nSF:src/ok.c\nDA:1,2\nend_of_record\nSF:a/../../../esc.c\nDA:2,1\nend_of_record\n",
+                "TN:\nSF:../../outside.c\nDA:1,1\nend_of_record\nSF:{}/abs_src.c\nDA:1,1\nend_of_record\nSF:src/ok.c\nDA:1,2\nend_of_record\nSF:a/../../../esc.c\nDA:2,1\nend_of_record\nSF:../bait/abs_src.c\nDA:1,3\nend_of_record\nSF:../cwd/src/../../bait/abs_src.c\nDA:1,1\nend_of_record\n",
                 bait.display()
             ),
         )
@@ -181,6 +186,14 @@ pub fn run(rep: &mut Report) {
         std::fs::create_dir_all(case_dir.join("in/dirinput/shared")).unwrap();
         std::fs::write(case_dir.join("in/dirinput/shared/x.profraw"), b"input profile that must stay as it is").unwrap();
         std::fs::write(case_dir.join("in/dirinput/shared/x.gcda"), &gcda).unwrap();
+        // files whose names contain backslashes (ordinary characters here)
+        if rng.chance(1, 2) {
+            hostile = true;
+            let name = *rng.pick(&["..\\..\\bs_evil\\p.profraw", "..\\..\\..\\bs_evil3\\q.gcda", "sub\\..\\..\\..\\bs_evil2\\r.gcno"]);
+            let body: &[u8] = if name.ends_with("gcno") { &gcno } else if name.ends_with("gcda") { &gcda } else { &profraw };
+            std::fs::write(case_dir.join("in/dirinput").join(name), body).unwrap();
+            rep.count("dirinput_backslash_name");
+        }
         std::fs::write(case_dir.join("in/dirinput/sub/x.info"), "TN:\nSF:src/ok.c\nDA:3,1\nend_of_record\n").unwrap();
         std::fs::write(case_dir.join("bait/target.info"), "TN:\nSF:t.c\nDA:1,1\nend_of_record\n").unwrap();
         let _ = std::os::unix::fs::symlink(bait.join("target.info"), case_dir.join("in/dirinput/link.info"));
@@ -190,7 +203,8 @@ pub fn run(rep: &mut Report) {
         std::fs::write(case_dir.join("cwd/src/ok.c"), "int a;\nint b;\nint c;\n").unwrap();
         std::fs::write(case_dir.join("bait/abs_src.c"), "int z;\n").unwrap();
 
-        let (ty, out_arg, is_dir) = match rng.below(7) {
+        let (ty, out_arg, is_dir) = match rng.below(9) {
+            7 | 8 => ("html", "../out/html", true),
             0 => ("lcov", "../out/report.info", false),
             1 => ("html", "../out/html", true),
             2 => ("covdir", "../out/covdir.json", false),
@@ -236,7 +250,9 @@ pub fn run(rep: &mut Report) {
         }
         let mut bad: Vec<String> = vec![];
         for (p, v) in &after {
-            let allowed = p == "out" || p.starts_with("out/");
+            // the requested output location itself (a file, or a directory and what is below it)
+            let target = out_arg.trim_start_matches("../");
+            let allowed = p == "out" || (!target.is_empty() && (p == target || p.starts_with(&format!("{}/", target))));
             match before.get(p) {
                 Some(b) if b == v => {}
                 Some(_) => {
